@@ -6,7 +6,8 @@ tier="${1:-quick}"; pat="${2:-}"
 here="$(cd "$(dirname "$0")/.." && pwd)"; cd "$here"
 one() {
   d="$1"; tier="$2"; name=$(basename "$d")
-  prop=$(python3 -c "import json,sys;print(json.load(open('$d/meta.json'))['property'])")
+  # (the check that is run is the one of the targeted property, unless meta.json names another one under "check" and says why)
+  prop=$(python3 -c "import json,sys;m=json.load(open('$d/meta.json'));print(m.get('check', m['property']))")
   scratch=$(mktemp -d /tmp/verif-seedall-XXXXXX)
   git -C /repo archive HEAD | tar -x -C "$scratch"
   if (cd "$scratch" && git apply --whitespace=nowarn "$here/$d/patch.diff" 2>/dev/null) || (cd "$scratch" && patch -p1 -s < "$here/$d/patch.diff" >/dev/null 2>&1); then
